@@ -241,5 +241,5 @@ def replay(rep, body):
         for v in r2.violations:
             print('VIOLATING', v['what']['summary'])
         return not r2.violations
-    print(body['what'])
-    return False
+    from ..evidence import rerun_and_match
+    return rerun_and_match(run, body)
